@@ -648,13 +648,36 @@ func (pv *Prov) Atom(v ssa.Value, env *Env) string {
 		for _, a := range x.Call.Args {
 			args = append(args, pv.Atom(a, env))
 		}
+		// unexported module functions: the order of their parameters is an internal matter, so arguments are listed
+		// in a canonical order (by parameter type, receiver first, ties in source order)
+		origArgs := append([]string{}, args...)
+		if f := x.Call.StaticCallee(); f != nil && pv.p.InModule(f) && f.Object() != nil && !f.Object().Exported() && f.Parent() == nil && !x.Call.IsInvoke() {
+			first := 0
+			if f.Signature.Recv() != nil {
+				first = 1
+			}
+			if n := len(args) - first; n > 1 && len(f.Params) == len(args) && !f.Signature.Variadic() {
+				idx := make([]int, n)
+				for i := range idx {
+					idx[i] = first + i
+				}
+				sort.SliceStable(idx, func(a, b int) bool {
+					return typeName(f.Params[idx[a]].Type()) < typeName(f.Params[idx[b]].Type())
+				})
+				na := append([]string{}, args[:first]...)
+				for _, i := range idx {
+					na = append(na, args[i])
+				}
+				args = na
+			}
+		}
 		// single-expression module helpers: remember what the call stands for (matchers may retry with it)
 		if f := x.Call.StaticCallee(); f != nil && !pv.CopyIsFresh && pv.p.InModule(f) && len(f.Blocks) == 1 && f.Signature.Results().Len() == 1 && pv.depth < 40 {
 			if ret, ok := f.Blocks[0].Instrs[len(f.Blocks[0].Instrs)-1].(*ssa.Return); ok && len(ret.Results) == 1 && len(f.Blocks[0].Instrs) <= 16 {
 				ne := &Env{params: map[*ssa.Parameter]string{}, freevars: map[*ssa.FreeVar]string{}}
 				for i, prm := range f.Params {
-					if i < len(args) {
-						ne.params[prm] = args[i]
+					if i < len(origArgs) {
+						ne.params[prm] = origArgs[i]
 					}
 				}
 				if len(f.FreeVars) == 0 {
